@@ -267,18 +267,29 @@ func (j *judge) builder(u *bldrun.LUnit, b ast.Builder, thorough bool) {
 		j.mu.Lock()
 		j.optionsSeen++
 		j.mu.Unlock()
-		// An option derived from a member (plain builders, struct_fields_as_options) is named after
-		// that member: its single assignment must target it. This is the one expectation that does
-		// not come from the builder IR, so that a wrong target in the IR itself is seen.
-		if (u.C.Variant == "" || u.C.Variant == "fieldopts") && len(opt.Assignments) == 1 && len(opt.Args) == 1 {
-			pth := opt.Assignments[0].Path
-			if last := pth[len(pth)-1]; last.Index == nil && last.Identifier != opt.Name {
-				tc := bldrun.TypeClass(u, args[0].Term, 0)
+		// Options derived from members (plain builders, struct_fields_as_options / _as_arguments at any
+		// depth) name every argument after the member it is assigned to. This is the one expectation
+		// that does not come from the builder IR, so that a wrong target in the IR itself is seen.
+		if bldrun.NameCheckedVariants[u.C.Variant] {
+			for ai, asg := range opt.Assignments {
+				if asg.Value.Argument == nil || len(asg.Path) == 0 {
+					continue
+				}
+				last := asg.Path[len(asg.Path)-1]
+				if last.Index != nil || last.Identifier == asg.Value.Argument.Name {
+					continue
+				}
+				tc := "?"
+				for _, a := range args {
+					if a.Name == asg.Value.Argument.Name {
+						tc = bldrun.TypeClass(u, a.Term, 0)
+					}
+				}
 				if u.C.Tag() != "" {
 					tc += " [" + u.C.Tag() + "]"
 				}
-				j.fail(u, b, "option does not target the member it is named after", "", tc,
-					fmt.Sprintf("option %s assigns to %s", opt.Name, pth.String()), []call{{Text: opt.Name + "(…)"}})
+				j.fail(u, b, "argument is not assigned to the member it is named after", "", tc,
+					fmt.Sprintf("option %s: assignment %d writes argument %s to %s", opt.Name, ai, asg.Value.Argument.Name, asg.Path.String()), []call{{Text: opt.Name + "(…)"}})
 			}
 		}
 		// value alphabets
